@@ -845,7 +845,9 @@ class WorkTree:
             assert isinstance(head, Commit)
             tree = head.tree
         assert tree is not None
-        config = self._repo.get_config()
+        # (the whole stack: core.protectHFS / protectNTFS set in the user's
+        # configuration apply to a checkout, and a clone has nothing else yet)
+        config = self._repo.get_config_stack()
         honor_filemode = config.get_boolean(b"core", b"filemode", os.name != "nt")
         validate_path_element = get_path_element_validator(config)
         if config.get_boolean(b"core", b"symlinks", True):
